@@ -12,7 +12,7 @@ P = {
         "frequencies are generated strictly ascending and distinct at the requested fprecision; f = 0 only without R-C/R-L views",
     ],
     "tiers": tiers(
-        quick=[{"name": "rand", "mode": "run", "count": 5000, "max_size": 100, "shards": 8}],
+        quick=[{"name": "rand", "mode": "run", "count": 30000, "max_size": 100, "shards": 16, "max_seconds": 60}],
         thorough=[{"name": "rand", "mode": "run", "count": 600000, "max_size": 100, "shards": 16, "max_seconds": 1200}],
     ),
 }
